@@ -36,9 +36,12 @@ type world struct {
 	trace    []string
 }
 
+// worldSanitize, when set, gives the next worlds a sanitizer (scenarios that race on names the sanitizer changes)
+var worldSanitize *tally.SanitizeOptions
+
 func newWorld(cached bool, interval time.Duration, shards uint, closable bool) *world {
 	w := &world{cached: cached, expected: map[string]int64{}}
-	opts := tally.ScopeOptions{OmitCardinalityMetrics: true}
+	opts := tally.ScopeOptions{OmitCardinalityMetrics: true, SanitizeOptions: worldSanitize}
 	if cached {
 		w.recC = newRecCached()
 		if closable {
@@ -209,6 +212,33 @@ func scenarioClosedReadAfterReport(c *Ctx, cached bool) {
 	w.closer.Close()
 }
 
+// a pass parked inside the scope's own report (after the counter's swap, before the reporter call) while the
+// application records on the scope and closes it: the pass read the flag before the report, so the scope must
+// survive this pass and be collected, with the late increments, by the next one
+func scenarioCloseDuringOwnReport(c *Ctx, cached bool) {
+	w := newWorld(cached, 0, 1, false)
+	x := w.root.SubScope("x")
+	cx := x.Counter("c")
+	w.inc(cx, "x.c", 1)
+	s := NewSched(nil)
+	s.ParkOnT = func(th, l string) bool { return th == "P" && l == "counter.deliver" }
+	P := s.Spawn("P", func() { tally.VerifReportOnce(w.root) })
+	l1 := runUntil(s, P, func(l, _ string) bool { return l == "counter.deliver" })
+	w.note("P parked at %s (x.c swapped, not yet handed to the reporter)", l1)
+	w.inc(cx, "x.c", 7)
+	x.(io.Closer).Close()
+	w.note("close x")
+	l3 := runUntil(s, P, never)
+	w.note("P %s", l3)
+	s.Finish()
+	tally.VerifReportOnce(w.root)
+	tally.VerifReportOnce(w.root)
+	w.checkConservation(c, "C07", "close-during-the-scope's-own-report")
+	c.Cov.Eval(strings.Join(w.trace, " | "), true)
+	c.Cov.Schedules++
+	w.closer.Close()
+}
+
 // sampled C07 cycles: application threads doing {obtain, record, close, obtain again} against pass threads,
 // context switches at every registry hook; short watchdog instead of model-provided enabled sets
 func scenarioC07Random(c *Ctx, r *Rng) {
@@ -220,7 +250,7 @@ func scenarioC07Random(c *Ctx, r *Rng) {
 	w := newWorld(cached, 0, shards, false)
 	idents := []string{"x", "y"}[:r.Range(1, 2)]
 	s := NewSched(func(l string) bool {
-		return strings.HasPrefix(l, "registry.") && l != "registry.remove.locked" && l != "registry.pass.begin" && l != "registry.purge-check"
+		return l == "counter.deliver" || strings.HasPrefix(l, "registry.") && l != "registry.remove.locked" && l != "registry.pass.begin" && l != "registry.purge-check"
 	})
 	s.Timeout = 30 * time.Millisecond
 	var thrs []*Thr
@@ -300,6 +330,7 @@ func suiteC07Conc(c *Ctx) {
 	for _, cached := range []bool{false, true} {
 		scenarioRemoveByKey(c, cached)
 		scenarioClosedReadAfterReport(c, cached)
+		scenarioCloseDuringOwnReport(c, cached)
 	}
 	n := c.N(150, 3000)
 	for i := 0; i < n; i++ {
